@@ -147,7 +147,7 @@ for _pid, _text, _note in [
      "bounded only by design: the quantities are outputs of numerical optimisers/quadrature and the named defect class is floating-point "
      "cancellation, which does not exist over the reals"),
 ]:
-    if _pid in ("C02", "C11", "C16", "C17", "C18"):
+    if _pid in ("C02", "C11", "C12", "C16", "C17", "C18"):
         continue
     CLAIMED[_pid] = dict(category="exploration", text=_text, note=_note, technique=BOUNDED_TECH, ref="3/" + _pid)
 
@@ -211,6 +211,21 @@ CLAIMED["C18"] = dict(
          "under the C02/C16 contracts; the gradient proof is modular over the special functions (their derivative laws proved separately "
          "for the real bodies); proposals inside the bounds rely on scipy's bounded optimisers and starting_positions: bounded only",
     ref="3/C18")
+
+CLAIMED["C12"] = dict(
+    text="Proof for every sample (N >= 3, two distinct values), user bandwidth h > 0 and any number of evaluation points: the real "
+         "constructor sorts the sample, sets norm = 1/(N h sqrt(2 pi)), q = 1/(sqrt 2 h), cutoff 4h and limits +-2h, uses 2^n regions with "
+         "n > log2(range/h) so that no region is wider than h, and for every region the slice holds exactly the samples within 4h of "
+         "the region's midpoint (those left of it are counted by the CDF offset); BinaryTree sends every value to the region containing "
+         "it (outside values to the end regions); __call__ returns norm * sum over the slice of exp(-((x-s_j) q)^2) and cdf returns "
+         "offset + (1/2N) sum (1 + erf((x-s_j) q)) for every evaluation point (loop invariant over the groups of a partition); composition "
+         "lemma: every sample left out is >= 3.5 h from the point on the assumed side, i.e. the truncation bounds phi(3.5)/h and Phi(-3.5). "
+         "Bounded: brute-force KDE/CDF comparison on eight sample families incl. Cauchy and far outliers, six bandwidth modes, scale/shift "
+         "equivariance, order independence, exhaustive unique_index_groups for arrays <= 6.",
+    note="assumed: numpy sort / searchsorted(side=left) / linspace contracts, unique_index_groups partitions the positions by value (bounded "
+         "exhaustive check), 2^t increasing with 2^(log2 u) = u, Gaussian tail monotone; bandwidth selection rules (rule of thumb, "
+         "cross-validation) and scalar-vs-array return are bounded only; floats as reals",
+    ref="3/C12")
 
 PENDING_REASON = "contracts for this property are not built yet in this revision (see DESIGN.md section 7); not claimed"
 
